@@ -298,6 +298,7 @@ type instantiator struct {
 	boundMap    map[boundParam]int
 	instances   []*instance
 	instanceMap *container.IntSliceMap[*instance] // [nonterm, boundParam #1, ...] ->
+	sets        map[*TokenSet]*TokenSet           // instantiated set expressions (named sets are shared and can be recursive)
 }
 
 func (i *instantiator) resolveInstance(context *instance, nonterm int, args []Arg) *instance {
@@ -344,12 +345,21 @@ func (i *instantiator) doSet(set *TokenSet) *TokenSet {
 		}
 		return set
 	}
-	ret := *set
+	if ret, ok := i.sets[set]; ok {
+		// Named sets are shared between their users and can refer to each other.
+		return ret
+	}
+	if i.sets == nil {
+		i.sets = make(map[*TokenSet]*TokenSet)
+	}
+	ret := new(TokenSet)
+	*ret = *set
+	i.sets[set] = ret
 	ret.Sub = make([]*TokenSet, 0, len(set.Sub))
 	for _, sub := range set.Sub {
 		ret.Sub = append(ret.Sub, i.doSet(sub))
 	}
-	return &ret
+	return ret
 }
 
 func (i *instantiator) check(context *instance, p *Predicate) bool {
